@@ -89,7 +89,7 @@ ORDERS = {"fwd": list(range(len(PP))), "rev": list(range(len(PP) - 1, -1, -1)), 
 # chronological (time-ordered record; values and depths interleaved) and reverse chronological
 ORDERS["chrono"] = sorted(_perm(len(PP), 389), key=lambda i: dt.datetime.fromisoformat(TIMES[PP[i][0]]))
 ORDERS["rchrono"] = list(reversed(ORDERS["chrono"]))
-SMALL = [(t, x, z) for t in (2, 6, 11) for x in (4.0, 15.0, alpha.NAN) for z in (5.0, alpha.NAN)]
+SMALL = [(t, x, z) for t in (2, 6, 11) for x in (4.0, 12.0, 15.0, 19.0, alpha.NAN) for z in (5.0, alpha.NAN)]   # (12 / 19: inside a valid span, outside a narrower fail span)
 
 
 def _dt(s):
